@@ -218,6 +218,45 @@ theorem header_last (f : Fmt) (t : Trace) (hc : conforms f t = true) :
   simp only [List.any_eq_true, List.mem_range, Bool.and_eq_true]
   exact ⟨y, P.hy, ⟨P.hsync, decide_eq_true P.hlen⟩, P.hbetween⟩
 
+/-! ### The driver's power-loss enumeration and the `Crash` relation
+`lean/Driver/C09.lean` emits `crashImage vols jl choice` for pairs `(jl, choice)` that pass the
+decidable tests `lenOKB` / `verOKB`, with `vols j = vol t j` for `j ≤ k` (a table). -/
+
+/-- **soundness**: every image the driver emits is a crash image of the model. -/
+theorem crash_enumeration_sound (t : Trace) (k jl : Nat) (choice : Nat → Nat) (vols : Nat → Img)
+    (hk : k ≤ t.length) (hv : ∀ j, j ≤ k → vols j = vol t j)
+    (hl : lenOKB t k jl = true) (hc : ∀ s, verOKB t k s (choice s) = true) :
+    Crash t k (crashImage vols jl choice) := by
+  have hL := (lenOKB_iff t k jl).mp hl
+  refine ⟨hk, ⟨jl, hL, by show (vols jl).len = _; rw [hv jl hL.1]⟩, fun s => ?_⟩
+  have hV := (verOKB_iff t k s (choice s)).mp (hc s)
+  refine ⟨choice s, hV, fun i his hi => ?_⟩
+  have hi' : i < (vols jl).len := hi
+  rw [crashImage_get vols jl choice i hi', his, hv (choice s) hV.1]
+
+/-- **completeness at the level of (length version, sector versions)**: every crash image of the
+model is, byte for byte, `crashImage` of some pair that passes the driver's tests.  (That the
+driver's mixed-radix counter visits every such pair — up to sectors with equal content — when
+their number is ≤ the cap is executable glue in `Driver/C09.lean`, not a theorem.) -/
+theorem crash_enumeration_complete (t : Trace) (k : Nat) (img : Img) (h : Crash t k img) :
+    ∃ jl choice, lenOKB t k jl = true ∧ (∀ s, verOKB t k s (choice s) = true) ∧
+      img.eqv (crashImage (vol t) jl choice) := by
+  obtain ⟨_, ⟨jl, hjl, hlen⟩, hsec⟩ := h
+  have hch : ∀ s, ∃ j, VerOK t k s j ∧ ∀ i, i / kSector = s → i < img.len → img.get i = (vol t j).get i := hsec
+  let choice : Nat → Nat := fun s => Classical.choose (hch s)
+  have hspec : ∀ s, VerOK t k s (choice s) ∧ ∀ i, i / kSector = s → i < img.len → img.get i = (vol t (choice s)).get i :=
+    fun s => Classical.choose_spec (hch s)
+  refine ⟨jl, choice, (lenOKB_iff t k jl).mpr hjl, fun s => (verOKB_iff t k s _).mpr (hspec s).1, ?_, ?_⟩
+  · exact hlen
+  · intro i
+    by_cases hi : i < img.len
+    · rw [crashImage_get (vol t) jl choice i (by rw [← hlen]; exact hi)]
+      exact (hspec (i / kSector)).2 i rfl hi
+    · have h1 : img.get i = 0 := by unfold Img.get; simp [hi]
+      have h2 : (crashImage (vol t) jl choice).get i = 0 := by
+        unfold Img.get crashImage; simp only; rw [← hlen]; simp [hi]
+      rw [h1, h2]
+
 /-! ### Non-vacuity and the two write methods in miniature
 A toy format with a 4-byte "Sanity" `[9,9,9,9]`, marker `[7,7]`, header size 8. -/
 def toyFmt : Fmt :=
@@ -248,6 +287,13 @@ example : loads toyFmt (final toyMmap) = true := by decide
 /-- **Deviation E, at model level**: the trace shape of WRITE_MMAP with vocabulary strings
 violates the "in particular" clause (no sync of the whole file precedes the header). -/
 theorem mmap_vocab_header_not_last : headerLast toyFmt toyMmapVocab = false ∧ conforms toyFmt toyMmapVocab = false := by
+  decide
+
+/-- non-vacuity on the E-shaped toy trace after the header store (k = 8): the length is durable since
+the last msync (event 7), but sector 0 — which here also holds the `write()`n strings the msync
+does not cover — may still be at any version since the *first* msync (event 4), not older. -/
+example : lenOKB toyMmapVocab 8 7 = true ∧ lenOKB toyMmapVocab 8 6 = false ∧
+    verOKB toyMmapVocab 8 0 4 = true ∧ verOKB toyMmapVocab 8 0 3 = false := by
   decide
 
 /-- with an `fsync` before the header (the repair) the same shape conforms -/
